@@ -165,7 +165,8 @@ def cases(draw):
                         u = u + 1.5
                 point[nm] = (u - t["b"]) / t["a"]
             elif t["form"] == "regular":
-                point[nm] = draw(st.sampled_from(REGULAR_U + [-0.5, -1.0]))
+                # exp at 40: a REGULAR entry above 1e16 (it must come back unchanged next to sanitised ones)
+                point[nm] = draw(st.sampled_from(REGULAR_U + [-0.5, -1.0] + ([40.0, 40.0] if kind == "exp" else [])))
             else:
                 outside_ok = (t["form"] == "vec_un" and kind in ("sqrt", "log")) or (t["form"] == "vec_pow" and t["k"] != int(t["k"]))
                 if cls == "singular":
@@ -174,7 +175,8 @@ def cases(draw):
                     point[nm] = draw(st.sampled_from([-1.0, -0.5]))
                 else:
                     cls = "regular"
-                    point[nm] = draw(st.sampled_from(REGULAR_U + ([-0.5, -2.0] if not outside_ok else [])))
+                    big = [1e-9] if (t["form"] == "vec_pow" and t["k"] in (-1.0, -2.0)) else []   # regular, |derivative| > 1e16
+                    point[nm] = draw(st.sampled_from(REGULAR_U + ([-0.5, -2.0] if not outside_ok else []) + big))
             pclass[nm] = cls
     used = [nm for t in terms for nm in t["names"]]
     vkind = draw(st.sampled_from(["own", "perm", "exactvec"]))
